@@ -2,65 +2,54 @@
 C09 — The unicode map always equals the inverse of the glyphs' unicodes.
 
 `UniOK s` says: if the layer's unicode data exists, it maps a code point to exactly the names of
-the glyphs currently in the layer (abstract content `abs s`) whose unicodes contain it.
+the glyphs currently in the layer (abstract content `abs s`) whose unicodes contain it; a name is listed
+under a code point at most as often as the glyph's own list repeats that code point, and no entry is empty.
 -/
 import DefconModel.Lemmas.Layer
+import DefconModel.Lemmas.Layers
 
 namespace DefconModel.Props.C09
 open DefconModel DefconModel.Layer
 
-/-- Main theorem: in every state reachable from a well-formed layer by ANY sequence of glyph
-creation, replacement, insertion, deletion, renaming, unicodes assignment, reading, saving —
-with the unicode data first accessed at any point of the sequence — the map (once it exists) is
-exactly the inverse of the glyphs' unicodes: no stale names, none missing, no name twice. -/
+/-- Main theorem: in every state reachable from a well-formed layer by ANY sequence of glyph creation,
+replacement (`newGlyph` / `insertGlyph` over a name that is present), insertion of a glyph carrying unicodes,
+deletion, renaming (onto a free name or onto a present one, whose glyph is replaced), unicodes assignment
+(lists WITH repeated code points, reorderings, `glyph.unicode = v`, `glyph.unicodes = []`), reloading after
+another program rewrote the file (glyph read or not), look-ups, reading, saving — with the unicode data first
+accessed at any point of the sequence — the map (once it exists) is exactly the inverse of the glyphs'
+unicodes: no stale names, none missing; and a name is listed under a code point no more often than the glyph's
+own list repeats it (the lazy constructor appends once per list element). -/
 theorem uni_inverse (s : State) (ops : List Op) (h : Good s) (hops : OpsOK (abs s) ops) (m : Cmap)
     (hm : (run s ops).uni = some m) :
     (∀ c n, n ∈ namesAt m c ↔ ∃ r, abs (run s ops) n = some r ∧ c ∈ r.unicodes) ∧
-    (∀ c, (namesAt m c).Nodup) := by
+    (∀ c n, (namesAt m c).count n ≤ cnt (abs (run s ops)) n c) := by
   have hg := (run_refines s ops h hops).1
-  obtain ⟨hw, hiff⟩ := hg.uni m hm
-  exact ⟨hiff, fun c => namesAt_nodup hw c⟩
+  exact ⟨fun c n => uniInv_mem hg.uni hm c n, fun c n => ((hg.uni m hm).2 c n).1⟩
+
+/-- The first version of the theorem (its narrower domain: every unicode list that enters the layer is free of
+repetitions), with its conclusion: no name is listed twice under a code point. -/
+theorem uni_inverse_nodup (s : State) (ops : List Op) (h : Good s) (hr : RecsOK s) (hops : OpsOK (abs s) ops)
+    (hnd : OpsNodup ops) (m : Cmap) (hm : (run s ops).uni = some m) :
+    (∀ c n, n ∈ namesAt m c ↔ ∃ r, abs (run s ops) n = some r ∧ c ∈ r.unicodes) ∧
+    (∀ c, (namesAt m c).Nodup) := by
+  obtain ⟨hg, habs⟩ := run_refines s ops h hops
+  refine ⟨(uni_inverse s ops h hops m hm).1, fun c => uniInv_nodup hg.uni hm ?_ c⟩
+  have hfe : abs (run s ops) = specRun (abs s) ops := funext habs
+  rw [hfe]
+  exact fnodup_specRun hr ops hnd
 
 /-- … in particular from a freshly opened layer (nothing read, map not built). -/
 theorem uni_inverse_opened (disk : List (String × GRec)) (hk : (AL.keys disk).Nodup)
     (hr : ∀ p ∈ disk, p.2.unicodes.Nodup) (ops : List Op) (hops : OpsOK (abs (opened disk)) ops) (m : Cmap)
     (hm : (run (opened disk) ops).uni = some m) (c : Nat) (n : String) :
-    n ∈ namesAt m c ↔ ∃ r, abs (run (opened disk) ops) n = some r ∧ c ∈ r.unicodes := by
-  have hg : Good (opened disk) := by
-    refine ⟨?_, uniInv_none _, ?_⟩
-    · have habs : ∀ k, abs (opened disk) k = AL.get? disk k := by intro k; simp [abs, opened]
-      constructor
-      · exact hk
-      · simp [opened, AL.keys]
-      · simpa [opened, AL.keys] using hk
-      · simp [opened]
-      · intro m hm; simp [opened] at hm
-      · intro m hm; simp [opened] at hm
-      · intro k
-        rw [habs]
-        simp only [opened]
-        constructor
-        · intro hmem
-          have : k ∈ AL.keys disk := by simpa [AL.keys] using hmem
-          simp only [AL.keys, List.mem_map] at this
-          obtain ⟨⟨k', v⟩, hp, rfl⟩ := this
-          rw [AL.get?_of_mem_nodup hk hp]; rfl
-        · intro hs
-          cases hg : AL.get? disk k with
-          | none => simp [hg] at hs
-          | some v => simpa [AL.keys] using AL.mem_keys_of_get? hg
-      · intro k r hl; simp [opened] at hl
-    · intro n r hn
-      have : abs (opened disk) n = AL.get? disk n := by simp [abs, opened]
-      rw [this] at hn
-      exact hr _ (AL.mem_of_get? hn)
-  exact (uni_inverse (opened disk) ops hg hops m hm).1 c n
+    n ∈ namesAt m c ↔ ∃ r, abs (run (opened disk) ops) n = some r ∧ c ∈ r.unicodes :=
+  (uni_inverse (opened disk) ops (good_opened disk hk hr) hops m hm).1 c n
 
 /-- The lazily built map is correct at the moment it is built, whatever is loaded, deleted or
 pending at that moment. -/
 theorem first_access_exact (s : State) (h : Good s) (hn : s.uni = none) (c : Nat) (n : String) :
     n ∈ namesAt (buildUni s) c ↔ ∃ r, abs s n = some r ∧ c ∈ r.unicodes :=
-  ((buildUni_spec h.wf) (buildUni s) rfl).2 c n
+  uniInv_mem (buildUni_spec h.wf) rfl c n
 
 /-- One step keeps the invariant (the induction step of `uni_inverse`, stated on its own). -/
 theorem uni_step (s : State) (op : Op) (h : Good s) (hop : OpOK (abs s) op) : UniOK (stepTotal s op) :=
@@ -73,6 +62,164 @@ theorem add_exact (m : Cmap) (n n' : String) (vs : List Nat) (c : Nat) :
 theorem remove_exact (m : Cmap) (h : UniWF m) (n n' : String) (vs : List Nat) (c : Nat) :
     n' ∈ namesAt (uniRemove m n vs) c ↔ n' ∈ namesAt m c ∧ ¬ (n' = n ∧ c ∈ vs) := mem_uniRemove h n n' vs c
 
+/-- `removeGlyphData` on ANY reachable map (names may be listed more than once): under code point `c` one
+occurrence of the name goes for every occurrence of `c` in the list handed in; no other name is touched; no
+entry is left empty. -/
+theorem remove_exact_counted (m : Cmap) (h : MapWF m) (n n' : String) (vs : List Nat) (c : Nat) :
+    MapWF (uniRemove m n vs) ∧ (namesAt (uniRemove m n vs) c).count n' =
+      if n' = n then (namesAt m c).count n - vs.count c else (namesAt m c).count n' :=
+  ⟨(uniRemove_spec h n vs).1, (uniRemove_spec h n vs).2 c n'⟩
+
+/-! ### look-ups -/
+
+/-- `unicodeForGlyphName n` is the first code point of glyph `n` when it has one, `None` when the glyph has
+none or is absent — in every reachable state, whatever has been read; the look-up itself (it reads the glyph)
+changes neither the content nor the map's correctness. -/
+theorem forward_lookup_exact (s : State) (ops : List Op) (h : Good s) (hops : OpsOK (abs s) ops) (n : String) :
+    (fwd (run s ops) n).2 = (abs (run s ops) n).bind (fun r => r.unicodes.head?) ∧
+    Good (fwd (run s ops) n).1 ∧ ∀ k, abs (fwd (run s ops) n).1 k = abs (run s ops) k := by
+  have hg := (run_refines s ops h hops).1
+  obtain ⟨h1, h2, h3⟩ := fwd_spec hg n
+  exact ⟨h3, h1, h2⟩
+
+/-- `pseudoUnicodeForGlyphName n`: the glyph's own first code point if it has one; otherwise, for a name with a
+suffix or a ligature name, the first code point of the base glyph (`baseName`), if that has one. -/
+theorem pseudo_lookup_exact (s : State) (ops : List Op) (h : Good s) (hops : OpsOK (abs s) ops) (n : String) :
+    (pseudo (run s ops) n).2 = specPseudo (abs (run s ops)) n ∧ Good (pseudo (run s ops) n).1 := by
+  have hg := (run_refines s ops h hops).1
+  obtain ⟨h1, _, h3⟩ := pseudo_spec hg n
+  exact ⟨h3, h1⟩
+
+/-- `glyphNameForUnicode c` names one of the glyphs that carry `c`, and is `None` exactly when no glyph of the
+layer carries `c` — in every reachable state in which the map exists. -/
+theorem reverse_lookup_member (s : State) (ops : List Op) (h : Good s) (hops : OpsOK (abs s) ops) (m : Cmap)
+    (hm : (run s ops).uni = some m) (c : Nat) :
+    (∀ n, glyphNameForUnicode m c = some n → ∃ r, abs (run s ops) n = some r ∧ c ∈ r.unicodes) ∧
+    (glyphNameForUnicode m c = none ↔ ∀ n r, abs (run s ops) n = some r → c ∉ r.unicodes) := by
+  have hiff := (uni_inverse s ops h hops m hm).1
+  unfold glyphNameForUnicode
+  constructor
+  · intro n hn
+    exact (hiff c n).mp (List.mem_of_mem_head? hn)
+  · rw [List.head?_eq_none_iff]
+    constructor
+    · intro he n r hr hc
+      have := (hiff c n).mpr ⟨r, hr, hc⟩
+      rw [he] at this; simp at this
+    · intro hall
+      cases hl : namesAt m c with
+      | nil => rfl
+      | cons n rest =>
+        exfalso
+        obtain ⟨r, hr, hc⟩ := (hiff c n).mp (by rw [hl]; simp)
+        exact hall n r hr hc
+
+/-- No reachable map has an entry with an empty list: when the last glyph carrying a code point leaves (is
+deleted, renamed, replaced, re-assigned, reloaded) `removeGlyphData` deletes the entry.  Hence `c in
+unicodeData` is true exactly for the code points some glyph of the layer carries. -/
+theorem no_empty_entries (s : State) (ops : List Op) (h : Good s) (hops : OpsOK (abs s) ops) (m : Cmap)
+    (hm : (run s ops).uni = some m) :
+    (∀ c l, AL.get? m c = some l → l ≠ []) ∧
+    (∀ c, hasCode m c = true ↔ ∃ n r, abs (run s ops) n = some r ∧ c ∈ r.unicodes) := by
+  have hg := (run_refines s ops h hops).1
+  have hw := (hg.uni m hm).1
+  have hiff := (uni_inverse s ops h hops m hm).1
+  refine ⟨fun c l hl => hw.nonempty _ (AL.mem_of_get? hl), fun c => ?_⟩
+  unfold hasCode
+  rw [← namesAt_ne_nil_iff hw]
+  constructor
+  · intro hne
+    cases hl : namesAt m c with
+    | nil => exact absurd hl hne
+    | cons n rest =>
+      obtain ⟨r, hr, hc⟩ := (hiff c n).mp (by rw [hl]; simp)
+      exact ⟨n, r, hr, hc⟩
+  · rintro ⟨n, r, hr, hc⟩ he
+    have := (hiff c n).mpr ⟨r, hr, hc⟩
+    rw [he] at this; simp at this
+
+/-! ### the newly covered operations, one by one (each is an instance of `uni_step` + the commutation of the
+operation with the abstraction; stated for the reader and for the non-vacuity examples) -/
+
+/-- Renaming glyph `o` onto a name `n` that is PRESENT replaces that glyph: afterwards the layer shows the
+renamed glyph's record under `n`, nothing under `o`, and the map — if it exists — is the inverse of that
+content: the replaced glyph's code points have left it unless the renamed glyph carries them (finding F107,
+repaired). -/
+theorem rename_onto_present (s : State) (o n : String) (r : GRec) (h : Good s) (ho : abs s o = some r) (hne : o ≠ n) :
+    UniOK (stepTotal s (.rename o n)) ∧
+    ∀ k, abs (stepTotal s (.rename o n)) k = upd (upd (abs s) o none) n (some r) k := by
+  obtain ⟨hg, ha⟩ := step_refines (.rename o n) h trivial
+  refine ⟨hg.uni, fun k => ?_⟩
+  rw [ha]
+  simp [specTotal, specStep, ho, hne]
+
+/-- Reloading glyph `n` after another program rewrote its file with record `r`: whether the glyph had been read
+or not, and whether the map existed or not, the layer shows `r` and the map is the inverse of the new content
+(for a glyph that had not been read the map used to keep the code points scanned earlier: finding F108,
+repaired). -/
+theorem reload_exact (s : State) (n : String) (r : GRec) (h : Good s) (hn : (abs s n).isSome) (hr : r.unicodes.Nodup) :
+    UniOK (stepTotal s (.reload n r)) ∧ ∀ k, abs (stepTotal s (.reload n r)) k = upd (abs s) n (some r) k := by
+  obtain ⟨hg, ha⟩ := step_refines (.reload n r) h hr
+  refine ⟨hg.uni, fun k => ?_⟩
+  rw [ha]
+  simp [specTotal, specStep, hn]
+
+/-- `glyph.unicode = v` replaces the whole list by `[v]` (by `[]` for `None`); the map follows. -/
+theorem unicode_setter_exact (s : State) (n : String) (v : Option Nat) (r : GRec) (h : Good s) (hn : abs s n = some r) :
+    UniOK (stepTotal s (.setUnicode n v)) ∧
+    abs (stepTotal s (.setUnicode n v)) n = some (withUnicodes r v.toList) := by
+  obtain ⟨hg, ha⟩ := step_refines (.setUnicode n v) h trivial
+  refine ⟨hg.uni, ?_⟩
+  rw [ha]
+  simp [specTotal, specStep, hn, upd]
+
+/-- After `glyph.unicodes = []` the glyph is listed under no code point. -/
+theorem empty_assignment_clears (s : State) (n : String) (h : Good s) (m : Cmap)
+    (hm : (stepTotal s (.setUnicodes n [])).uni = some m) (hn : (abs s n).isSome) (c : Nat) : n ∉ namesAt m c := by
+  obtain ⟨hg, ha⟩ := step_refines (.setUnicodes n []) h trivial
+  intro hmem
+  obtain ⟨r, hr, hc⟩ := (uniInv_mem hg.uni hm c n).mp hmem
+  rw [ha] at hr
+  cases hh : abs s n with
+  | none => simp [hh] at hn
+  | some r0 =>
+    simp [specTotal, specStep, hh, upd, withUnicodes] at hr
+    subst hr
+    simp at hc
+
+/-! ### several layers; `font.unicodeData` -/
+
+open Layers in
+/-- For EVERY layer of the font — default or not, opened from disk or created in memory — in every state
+reachable by operations on any of the layers, operations through the Font API, changes of the default layer,
+new layers, saves and look-ups: the layer's unicode map, once it exists, is the inverse of THAT layer's glyphs. -/
+theorem uni_inverse_layers (fs : FState) (ops : List FOp) (h : FGood fs) (hops : ∀ op ∈ ops, FOpOK op)
+    (l : String) (s : State) (m : Cmap) (hl : AL.get? (Layers.run fs ops).layers l = some s) (hm : s.uni = some m)
+    (c : Nat) (n : String) : n ∈ namesAt m c ↔ ∃ r, abs s n = some r ∧ c ∈ r.unicodes :=
+  uniInv_mem (good_of_get (good_run h ops hops) hl).uni hm c n
+
+open Layers in
+/-- `font.unicodeData` is the unicode data of whichever layer is the default one at that moment: after a change
+of the default layer it is the inverse of the NEW default layer's glyphs. -/
+theorem font_unicodeData_follows_default (fs : FState) (ops : List FOp) (h : FGood fs) (hops : ∀ op ∈ ops, FOpOK op)
+    (l : String) (s : State) (m : Cmap) (hl : AL.get? (Layers.run fs ops).layers l = some s)
+    (hm : fontUni (Layers.step (Layers.run fs ops) (.setDefault l)) = some m) (c : Nat) (n : String) :
+    n ∈ namesAt m c ↔ ∃ r, abs s n = some r ∧ c ∈ r.unicodes := by
+  have hc : AL.contains (Layers.run fs ops).layers l = true := by simp [AL.contains, hl]
+  simp only [fontUni, defaultLayer, Layers.step, hc, if_true, hl, Option.bind_some] at hm
+  exact uni_inverse_layers fs ops h hops l s m hl hm c n
+
+open Layers in
+/-- What `unicodeForGlyphName` of a layer's data answers (as the code stands): the first code point of the glyph
+of that name in the font's DEFAULT layer — `UnicodeData.unicodeForGlyphName` goes through `self.font` — which is
+the layer's own glyph exactly when the data are the default layer's (`font.unicodeData`). -/
+theorem forward_lookup_layers (fs : FState) (h : FGood fs) (l n : String) (d : State)
+    (hd : defaultLayer fs = some d) :
+    Layers.fwdOn fs l n = (abs d n).bind (fun r => r.unicodes.head?) := by
+  unfold Layers.fwdOn
+  rw [hd]
+  exact (fwd_spec (good_of_get h hd) n).2.2
+
 /-! ### non-vacuity -/
 
 def demoDisk : List (String × GRec) :=
@@ -81,10 +228,50 @@ def demoDisk : List (String × GRec) :=
 def demoOps : List Op :=
   [.delete "A", .touchUni, .rename "B" "D", .new "A", .setUnicodes "A" [66, 67], .insert "C" { unicodes := [65] }]
 
+example : Good (opened demoDisk) := good_opened demoDisk (by decide) (by decide)
 example : OpsOK (abs (opened demoDisk)) demoOps := by decide
+example : OpsNodup demoOps := by decide
+example : RecsOK (opened []) := by intro n r h; simp [abs, opened] at h
 example : (run (opened demoDisk) demoOps).uni = some [(66, ["D", "A"]), (65, ["D", "C"]), (67, ["A"])] := by decide
 /-- before the F4 fix the first access after deleting an unread glyph listed the stale name;
 the model of the fixed code does not -/
 example : (run (opened demoDisk) [.delete "A", .touchUni]).uni = some [(66, ["B"]), (65, ["B"])] := by decide
+
+/-- the widened domain: a list that repeats a code point, a reordering, a rename onto a present name, the single
+value setter, an empty assignment, a reload of an unread and of a read glyph, `newGlyph` over a present name -/
+def wideOps : List Op :=
+  [.get "A", .setUnicodes "A" [65, 65, 67], .touchUni, .setUnicodes "A" [67, 65, 65], .rename "A" "B",
+   .setUnicode "C" (some 66), .reload "C" { unicodes := [70] }, .setUnicodes "B" [], .new "C", .fwd "B", .pseudo "C.alt"]
+example : OpsOK (abs (opened demoDisk)) wideOps := by decide
+/-- the lazy constructor lists a loaded glyph once per element of its list … -/
+example : (run (opened demoDisk) [.get "A", .setUnicodes "A" [65, 65, 67], .touchUni]).uni =
+    some [(65, ["A", "A", "B"]), (67, ["A"]), (66, ["B"])] := by decide
+/-- … a rename onto the present name "B" replaces that glyph: its code point 66 leaves the map (F107) -/
+example : (run (opened demoDisk) [.touchUni, .rename "A" "B"]).uni = some [(65, ["B"])] := by decide
+example : visible (run (opened demoDisk) [.touchUni, .rename "A" "B"]) = ["B", "C"] := by decide
+/-- … a reload of the unread glyph "A" after the map was built moves it to the code points of the new file (F108) -/
+example : (run (opened demoDisk) [.touchUni, .reload "A" { unicodes := [70] }]).uni =
+    some [(65, ["B"]), (66, ["B"]), (70, ["A"])] := by decide
+example : (run (opened demoDisk) wideOps).uni = some [] := by decide
+example : (fwd (run (opened demoDisk) [.touchUni]) "B").2 = some 66 := by decide
+example : (pseudo (opened [("f", { unicodes := [102] }), ("f_i", {}), ("f.alt", {})]) "f_i").2 = some 102 := by decide
+example : baseName "f.alt" = some "f" ∧ baseName ".notdef" = none ∧ baseName "A" = none := by decide
+example : glyphNameForUnicode [(65, ["A", "B"])] 65 = some "A" ∧ hasCode [(65, ["A", "B"])] 66 = false := by decide
+example : MapWF [(65, ["A", "A", "B"])] := ⟨by decide, by decide⟩
+example : (namesAt (uniRemove [(65, ["A", "A", "B"])] "A" [65]) 65) = ["A", "B"] := by decide
+
+/-- two layers: the background has its own glyphs "A" (97) and "C"; the foreground is the default layer -/
+def demoFont : Layers.FState :=
+  Layers.opened [("fg", demoDisk), ("bg", [("A", { unicodes := [97] }), ("C", { unicodes := [67, 65] })])] "fg"
+def demoFontOps : List Layers.FOp :=
+  [.on "bg" .touchUni, .on "bg" (.rename "A" "C"), .setDefault "bg", .font .touchUni, .font (.new "Z"),
+   .font (.setUnicodes "Z" [90]), .newLayer "sk", .on "sk" (.new "A"), .on "sk" (.setUnicode "A" (some 65)), .save,
+   .fwdOn "fg" "Z"]
+example : Layers.FGood demoFont := Layers.good_opened _ _ (by decide) (by decide)
+example : ∀ op ∈ demoFontOps, Layers.FOpOK op := by decide
+example : Layers.fontUni (Layers.run demoFont demoFontOps) = some [(97, ["C"]), (90, ["Z"])] := by decide
+example : (Layers.run demoFont demoFontOps).default = "bg" := by decide
+/-- `unicodeForGlyphName` of the foreground's data answers from the default layer (now the background) -/
+example : Layers.fwdOn (Layers.run demoFont demoFontOps) "fg" "C" = some 97 := by decide
 
 end DefconModel.Props.C09
